@@ -416,7 +416,7 @@ def part_structure(ctx, thorough):
         for b in range(int(rng.integers(1, 3))):
             blk = {}
             for g in range(int(rng.integers(1, 4))):
-                prefix = "g%d" % g
+                prefix = ["g%d", "atom_site_U%d", "refln_F%d", "Geom%d"][int(rng.integers(0, 4))] % g      # item names keep their letter case
                 for c in range(int(rng.integers(1, 4))):
                     kind = int(rng.integers(0, 3))
                     name = "%s_c%d" % (prefix, c)
